@@ -19,7 +19,7 @@ BUDGET = {
 RULE = (
     "each run draws a world (random program, some leaves pre-loaded with .grad) and a valid backward or "
     "mtl_backward call, then ENUMERATES every fault kind of the statement at every position it can take "
-    "(chunk<=0; empty tensors/features/losses; non-scalar loss at each index; len(losses)!=len(tasks_params) "
+    "(on base calls with explicit lists as well as with one or both parameter groups defaulted: chunk<=0; empty tensors/features/losses; non-scalar loss at each index; len(losses)!=len(tasks_params) "
     "both ways; shared/task overlap for each (param, task); duplicate tensor/feature/parameter at each pair of "
     "positions; a non-leaf tensor or a leaf with requires_grad=False at each position of inputs / shared_params "
     "/ tasks_params[i]; for backward every rejecting aggregator: wrong Constant/pref/leak length, too few rows "
@@ -119,12 +119,19 @@ def faults_mtl(rng, spec, model, roles, call):
             new = list(base["losses"])
             new[i] = rng.choice(nonscalar)
             add("nonscalar_loss", "losses", i, losses=new)
-    tasks = base["tasks"]
-    shared = base["shared"]
+    # a fault that edits a defaulted group first makes that group explicit (the model's default set); the
+    # OTHER group stays defaulted if the base call left it so -- "exactly one group given" is a call shape
+    # of its own
+    from ..world import default_params_mtl
+
+    cutmodel = Model(spec, cut=base["features"])
+    dshared, dtasks = default_params_mtl(model, cutmodel, base["losses"], base["features"])
+    tasks = base["tasks"] if base["tasks"] is not None else [list(tp) for tp in dtasks]
+    shared = base["shared"] if base["shared"] is not None else list(dshared)
     add("len_mismatch_more_tasks", "tasks", t, tasks=[list(tp) for tp in tasks] + [[]])
     if t >= 1:
         add("len_mismatch_fewer_tasks", "tasks", t - 1, tasks=[list(tp) for tp in tasks[:-1]])
-        add("len_mismatch_fewer_losses", "losses", t - 1, losses=list(base["losses"][:-1]) if t > 1 else [])
+        add("len_mismatch_fewer_losses", "losses", t - 1, losses=list(base["losses"][:-1]) if t > 1 else [], tasks=[list(tp) for tp in tasks])
     # overlap: each shared param into each task; each task param into shared
     for i in range(t):
         for p in shared:
@@ -199,7 +206,7 @@ def generate(rng, tier, index):
             return None
         spec, roles, g = r
         model = Model(spec)
-        call = C02.gen_mtl_call(rng, spec, roles, dtype, model=model, allow_default=False)
+        call = C02.gen_mtl_call(rng, spec, roles, dtype, model=model, allow_default=rng.random() < 0.6)
         faults = faults_mtl(rng, spec, model, roles, call)
     scheds = [gen_sched(rng, spec, mode=rng.choice(["perm", "perm", "scatter"])) for _ in range(nsched)]
     return {"spec": spec, "roles": roles, "base_call": call, "faults": faults, "scheds": scheds, "pre_grads": gen_pre_grads(rng, spec, p=0.5)}
@@ -244,10 +251,15 @@ def execute(scn):
             if pos is not None:
                 window = pos[0] > 0
             elif f["call"]["api"] == "mtl" and f["kind"] in ("param_nonleaf", "param_no_requires_grad"):
-                if f["group"] == "shared":
-                    window = any(len(tp) > 0 for tp in f["call"]["tasks"])
+                tk = f["call"]["tasks"]
+                if tk is None:
+                    window = True
+                elif f["group"] == "shared":
+                    window = any(len(tp) > 0 for tp in tk)
                 else:
-                    window = f["pos"][0] > 0 and any(len(tp) > 0 for tp in f["call"]["tasks"][: f["pos"][0]])
+                    window = f["pos"][0] > 0 and any(len(tp) > 0 for tp in tk[: f["pos"][0]])
+                if f["call"]["tasks"] is None or f["call"]["shared"] is None:
+                    stats["reach.fault_with_one_group_defaulted"] = stats.get("reach.fault_with_one_group_defaulted", 0) + 1
             if window:
                 stats["reach.partial_write_window"] = stats.get("reach.partial_write_window", 0) + 1
             changed = [n for n in world.names if before[n] != after[n]]
@@ -256,7 +268,7 @@ def execute(scn):
                 viols.append({
                     "clause": "rejected_call_modified_grad", "step": [fi, si],
                     "details": {"api": f["call"]["api"], "fault": f["kind"], "group": f["group"], "pos": f["pos"], "exc": out["exc"], "msg": out["msg"], "changed": changed, "set_order_position": pos},
-                    "key": {"api": f["call"]["api"], "fault": f["kind"], "group": f["group"]},
+                    "key": {"api": f["call"]["api"], "fault": f["kind"], "group": f["group"], "defaulted": _defaulted(f["call"])},
                 })
     sets["fault_cases"] = [digest([op_sig(spec), s]) for s in sigs]
     sets["fault_kinds_raised"] = sorted({s[1] for s in sigs})
@@ -269,6 +281,13 @@ def execute(scn):
         "violations": list(uniq.values()), "events": events, "stats": stats, "sets": sets,
         "sig": digest([op_sig(spec), scn["base_call"]["api"], len(scn["faults"])]), "nontrivial": raised_any,
     }
+
+
+def _defaulted(call):
+    if call["api"] != "mtl":
+        return "inputs" if call.get("inputs") is None else "none"
+    d = [g for g in ("tasks", "shared") if call.get(g) is None]
+    return "+".join(d) if d else "none"
 
 
 def json_key(k):
